@@ -1,2 +1,84 @@
-(* PropsC12.v — C12: path-addressed reads, writes and removals behave like a tree. *)
-From Ucfg Require Import Base ParseInt Consts Field Tree PathOps Merge OTree Ops.
+(* PropsC12.v — C12: path-addressed reads, writes and removals behave like a tree.
+   Statements only; proofs are in ProofsTree.v. *)
+From Ucfg Require Import Base ParseInt Consts Field Tree PathOps Merge OTree Ops ProofsTree.
+
+(* A value written at an address is read back unchanged from that address: for EVERY path
+   (any mixture of names and indices, any depth), every tree, whether intermediate nodes
+   existed before or are created by the write. *)
+Theorem c12_read_after_write : forall rp fs pp node ov v node',
+  fs <> [] ->
+  set_path fs pp node ov v = Ok node' ->
+  exists p', get_path_go rp fs pp node' = Ok (Some (p', v)).
+Proof. exact set_path_get_path. Qed.
+Print Assumptions c12_read_after_write.
+
+(* Writes affect only the addressed setting, at one node: another name is untouched ... *)
+Theorem c12_frame_other_name : forall n n' pp d a ov v node',
+  n <> n' -> set_field (FName n) pp (VSub d a) ov v = Ok node' ->
+  get_field (FName n') pp node' = get_field (FName n') pp (VSub d a).
+Proof. exact set_field_name_other. Qed.
+Print Assumptions c12_frame_other_name.
+
+(* ... the named part and the list part of a node do not interfere ... *)
+Theorem c12_frame_name_vs_index : forall n pp d a ov v node' i,
+  set_field (FName n) pp (VSub d a) ov v = Ok node' ->
+  get_field (FIdx i) pp node' = get_field (FIdx i) pp (VSub d a).
+Proof. exact set_field_name_keeps_list. Qed.
+Print Assumptions c12_frame_name_vs_index.
+
+Theorem c12_frame_index_vs_name : forall i pp d a ov v node' n,
+  set_field (FIdx i) pp (VSub d a) ov v = Ok node' ->
+  get_field (FName n) pp node' = get_field (FName n) pp (VSub d a).
+Proof. exact set_field_idx_keeps_dict. Qed.
+Print Assumptions c12_frame_index_vs_name.
+
+(* ... and in a list the entries below the old length other than the written one stay. *)
+Theorem c12_frame_other_index : forall a idx e j,
+  0 <= idx -> Z.of_nat j < lenZ (arr_of a) -> Z.of_nat j <> idx ->
+  nth_opt (arr_of (arr_set_at a idx e)) j = nth_opt (arr_of a) j.
+Proof. exact arr_set_at_other. Qed.
+Print Assumptions c12_frame_other_index.
+
+(* Writing past the end of a list pads with nils (named by their index). *)
+Theorem c12_write_past_end_pads_nil : forall a idx e j,
+  lenZ (arr_of a) <= j < idx ->
+  nth_opt (arr_of (arr_set_at a idx e)) (Z.to_nat j) = Some (dec j, VNil).
+Proof. exact arr_set_at_pads. Qed.
+Print Assumptions c12_write_past_end_pads_nil.
+
+Theorem c12_write_grows_exactly : forall a idx e,
+  0 <= idx -> lenZ (arr_of (arr_set_at a idx e)) = Z.max (lenZ (arr_of a)) (idx + 1).
+Proof. exact arr_set_at_length. Qed.
+Print Assumptions c12_write_grows_exactly.
+
+(* Removing from a list shifts the later elements down and leaves the earlier ones. *)
+Theorem c12_remove_shifts_down : forall (l : list nv) i j,
+  (i <= j)%nat -> nth_opt (del_nth l i) j = nth_opt l (S j).
+Proof. exact (@del_nth_after nv). Qed.
+Print Assumptions c12_remove_shifts_down.
+
+Theorem c12_remove_keeps_earlier : forall (l : list nv) i j,
+  (j < i)%nat -> nth_opt (del_nth l i) j = nth_opt l j.
+Proof. exact (@del_nth_before nv). Qed.
+Print Assumptions c12_remove_keeps_earlier.
+
+(* Removing a named key makes it absent and touches no other key. *)
+Theorem c12_remove_name : forall k (d : dict), NoDup (keys d) -> dict_get k (dict_del k d) = None.
+Proof. exact (@dict_del_removes nv). Qed.
+Print Assumptions c12_remove_name.
+
+Theorem c12_remove_name_frame : forall k k' (d : dict), k <> k' -> dict_get k' (dict_del k d) = dict_get k' d.
+Proof. exact (@dict_get_del_other nv). Qed.
+Print Assumptions c12_remove_name_frame.
+
+(* a write below something that is not an object is rejected (nothing is written) *)
+Theorem c12_write_through_primitive_rejected : forall f pp v ov x,
+  is_sub v = false -> exists r p, set_field f pp v ov x = Err r p.
+Proof. exact set_field_non_config. Qed.
+Print Assumptions c12_write_through_primitive_rejected.
+
+(* Non-vacuity: a three-level write into an empty tree, read back. *)
+Example c12_ex : exists t,
+  set_path [FName "a"; FIdx 2; FName "b"] "" empty_cfg None (VInt 7) = Ok t /\
+  get_path "" [FName "a"; FIdx 2; FName "b"] t = Ok (Some ("a.2.b", VInt 7)).
+Proof. eexists. split; vm_compute; reflexivity. Qed.
